@@ -100,8 +100,10 @@ fn run_script(script: &[Value], nkeys: u64, nwriters: usize, case_no: usize, out
                     Ok(Ok(t)) => {
                         let heads_after = list_heads(dir.path(), &mut names);
                         let first_chain = order.first().and_then(|n| tables.get(n)).map(|t| chain(t, &mut names, nkeys)).unwrap_or_default();
+                        // the segment stacks of all listed heads, in listing order (empty if unknown)
+                        let chains: Vec<Vec<Value>> = order.iter().map(|n| tables.get(n).cloned()).map(|t| t.map(|t| chain(&t, &mut names, nkeys)).unwrap_or_default()).collect();
                         tables.insert(names.get(t.name()), t.clone());
-                        out.emit(&json!({"op":"gethead","w":w,"fresh":op == "reload","order":order,"first_chain":first_chain,
+                        out.emit(&json!({"op":"gethead","w":w,"fresh":op == "reload","order":order,"first_chain":first_chain,"chains":chains,
                             "name":names.get(t.name()),"vals":lookups(&t, nkeys),"chain":chain(&t, &mut names, nkeys),
                             "heads":heads_after}));
                         wr.table = Some(t);
@@ -152,6 +154,7 @@ fn run_script(script: &[Value], nkeys: u64, nwriters: usize, case_no: usize, out
     let order = list_heads(dir.path(), &mut names);
     match store.get_head() {
         Ok(t) => out.emit(&json!({"op":"gethead","w":0,"fresh":true,"order":order,
+            "chains":order.iter().map(|n| tables.get(n).cloned()).map(|t| t.map(|t| chain(&t, &mut names, nkeys)).unwrap_or_default()).collect::<Vec<_>>(),
             "first_chain":order.first().and_then(|n| tables.get(n)).map(|t| chain(t, &mut names, nkeys)).unwrap_or_default(),
             "name":names.get(t.name()),"vals":lookups(&t, nkeys),"chain":chain(&t, &mut names, nkeys),"heads":list_heads(dir.path(), &mut names)})),
         Err(e) => out.emit(&json!({"op":"error","call":"get_head","w":0,"msg":format!("{e:?}")})),
